@@ -70,9 +70,7 @@ def make_machine(sh, found, steps_budget):
         def __init__(self):
             super().__init__()
             self.root = tempfile.mkdtemp(prefix='c15_')
-            for name, src in c04.MODS.items():
-                with open(os.path.join(self.root, name + '.py'), 'w') as f:
-                    f.write(src)
+            c04.write_mods(self.root)
             self.env = Environment(env={'SUPP_LOG_LEVEL': '100', 'PYTHONPATH': core.REPO})
             self.mirror = supp_server.Server(None)
             self.ops = []
@@ -165,9 +163,9 @@ def make_machine(sh, found, steps_budget):
             src, pos = SNIPPETS[i]
             self.both(which, src, pos, os.path.join(self.root, 'buffer.py'))
 
-        @rule(mod=st.sampled_from(sorted(c04.MODS)), pi=st.integers(0, 200), which=st.sampled_from(['assist', 'location']))
+        @rule(mod=st.sampled_from(sorted(m for m in c04.MODS if c04.HPOS_CODE[m])), pi=st.integers(0, 200), which=st.sampled_from(['assist', 'location']))
         def project_cursor(self, mod, pi, which):
-            pos = c04.HPOS[mod][pi % len(c04.HPOS[mod])]
+            pos = c04.HPOS_CODE[mod][pi % len(c04.HPOS_CODE[mod])]
             self.both(which, c04.MODS[mod], pos, os.path.join(self.root, mod + '.py'))
 
         @rule(mod=st.sampled_from(sorted(c04.MODS)))
@@ -293,7 +291,11 @@ def w_machine(job):
             sig, ops, detail = found['f']
             sh.violation(sig, {'ops': ops}, detail)
         else:
-            # an exception nobody expected escaped from the client (e.g. a reply that cannot be decoded)
+            import traceback
+            frames = [f.filename for f in traceback.extract_tb(e.__traceback__)]
+            if not any(f.startswith(os.path.join(core.REPO, 'supp') + os.sep) for f in frames):
+                raise           # raised by the harness itself: a harness error (exit 2), never a violation
+            # an exception nobody expected escaped from the client code (e.g. a reply that cannot be decoded)
             sh.violation('client-raised-unexpectedly:%s' % type(e).__name__, {'ops': [list(o) for o in found.get('cur', [])]}, repr(e))
     return sh.result()
 
